@@ -61,6 +61,7 @@ func newSW(s *core.Sim, park bool) *SW {
 	first := core.Pick(s.Tape, "first", []uint64{1, 1, 7, 1000})
 	w.Ch = simhdr.NewChain("sim-chain", first, time.Now().Add(-1000*time.Hour), 3*time.Second)
 	w.Disk = simdisk.New("d0", s)
+	w.Disk.ErrWraps = core.Pick(s.Tape, "disk-error-kind", []error{nil, nil, context.DeadlineExceeded, context.Canceled})
 	w.Disk.Park = park
 	w.M = newStoreModel()
 	// tuning knob: from which range size DeleteRange deletes with parallel workers
@@ -111,7 +112,7 @@ func (w *SW) Open() error {
 		if err != nil {
 			return
 		}
-		err = st.Start(context.Background())
+		err = startStore(st)
 		w.St = st
 	})
 	if !fin {
@@ -144,7 +145,7 @@ func (w *SW) Restart() error {
 	}
 	w.S.Probe("restart-of-the-same-store-object")
 	var err error
-	_, fin := w.S.Do("start-again", opBudget, func() { err = w.St.Start(context.Background()) })
+	_, fin := w.S.Do("start-again", opBudget, func() { err = startStore(w.St) })
 	if !fin {
 		return errors.New("start: did not finish")
 	}
@@ -517,4 +518,12 @@ func (w *SW) checkRange(m *StoreModel, a, b uint64, bad func(string, map[string]
 			bad("range-wrong", map[string]string{"op": "GetRangeByHeight"}, "GetRangeByHeight(%d,%d) returned %v", a-1, b, got)
 		}
 	}
+}
+
+// startStore starts a Store with a context that is good for the Start call only and is
+// cancelled as soon as Start has returned, as a lifecycle hook with a start timeout does.
+func startStore(st *store.Store[*H]) error {
+	ctx, cancel := context.WithCancel(context.Background())
+	defer cancel()
+	return st.Start(ctx)
 }
